@@ -17,7 +17,7 @@
  *      packer/unpacker pair of equal width and byte order.
  *
  * Model: byte vector + unbounded cursor.  Oracle after EVERY call: buffer
- * image, canary bytes beside the buffer, returned value (0 on overflow),
+ * image, canary bytes beside the buffer (one 32-byte window compare), returned value (0 on overflow),
  * destination array (copy / zero-filled on overflow / untouched for NULL and
  * outside [0,sz)), rf_pack_consumed, rf_pack_remaining.  A fault (guard page,
  * assert) during a call is a violation as well.
@@ -60,7 +60,7 @@
 
 #define MAXN 9			/* largest buffer */
 #define AREA 64			/* bytes next to each guard page that we use */
-#define CANARY 16
+#define WIN 32			/* window = buffer + the canary bytes beside it, compared as a whole */
 #define MAXL 5			/* longest sequence of phase 1 */
 #define MAXPATH 24
 #define MAXA 160
@@ -147,9 +147,10 @@ static int act_parse(const char *tok, act_t *a)
 static uint8_t *areaR, *areaL;		/* AREA bytes ending at / starting after a PROT_NONE page */
 static int N, ALIGN;			/* buffer size, 0 = right-aligned, 1 = left-aligned */
 static uint8_t FILL[16];		/* initial buffer contents */
-static uint8_t *buf, *canary;
+static uint8_t *buf, *win; static int BOFF;	/* buf = win + BOFF */
 static rf_pack_t pk;
-static struct model { uint8_t b[16]; long cur; } M;
+static struct model { uint8_t img[WIN]; long cur; } M;	/* expected window image + unbounded cursor */
+#define MB (M.img + BOFF)		/* expected buffer contents */
 static act_t path[MAXPATH]; static volatile int plen;	/* history incl. the call being executed */
 static const act_t *volatile cur_act;	/* the call being executed (the implicit rf_pack_init when plen == 0) */
 static const act_t act_init = { K_REWIND, 0, 0, 0 };
@@ -168,18 +169,18 @@ enum { SIT_FIT, SIT_EXACT, SIT_OVERFLOW, SIT_STICKY, SIT_N };
 static const char *sitname[] = { "fits-with-slack", "exact-fit", "first-overflow", "after-overflow" };
 
 static uint64_t n_eval, n_sweep_calls, n_by_len[MAXPATH + 1], n_opsit[K_KINDS][SIT_N], n_null[2], n_roundtrips;
-static uint8_t crossing[K_KINDS][2][MAXN + 1][MAXN + 2]; static uint64_t n_crossings;
+static uint8_t crossing[MAXA][2][MAXN + 1][MAXN + 2]; static uint64_t n_crossings; static int cur_ai;
 static vx_set distinct; static uint64_t dcache[1 << 15];
 
 static void begin_case(int n, int align, const uint8_t *fill)
 {
 	N = n; ALIGN = align;
 	memcpy(FILL, fill, 16);
-	buf = align == 0 ? areaR + AREA - n : areaL;
-	canary = align == 0 ? buf - CANARY : buf + n;
-	memset(canary, 0xC5, CANARY);
-	memcpy(buf, FILL, (size_t)n);
-	memset(M.b, 0, sizeof(M.b)); memcpy(M.b, FILL, (size_t)n); M.cur = 0;
+	win = align == 0 ? areaR + AREA - WIN : areaL;
+	BOFF = align == 0 ? WIN - n : 0;
+	buf = win + BOFF;
+	memset(M.img, 0xC5, WIN); memcpy(MB, FILL, (size_t)n); M.cur = 0;
+	memcpy(win, M.img, WIN);
 	memset(&pk, 0, sizeof(pk));
 	plen = 0; have_roundtrip = 0;
 }
@@ -318,32 +319,30 @@ static int step_inner(const act_t *a, int count)
 	/* model */
 	M.cur = old + (long)k;
 	if (o->pack && fits) {
-		if (a->kind == K_P_BYTES) { for (unsigned i = 0; i < k; i++) M.b[old + i] = a->null ? 0 : src_data[i]; }
-		else for (unsigned i = 0; i < k; i++) M.b[old + i] = (uint8_t)(a->arg >> (8 * (o->be ? k - 1 - i : i)));
+		if (a->kind == K_P_BYTES) { for (unsigned i = 0; i < k; i++) MB[old + i] = a->null ? 0 : src_data[i]; }
+		else for (unsigned i = 0; i < k; i++) MB[old + i] = (uint8_t)(a->arg >> (8 * (o->be ? k - 1 - i : i)));
 	}
 
 compare:
 	last_ret = ret; last_fits = fits;
-	/* 1. buffer image */
-	if (N && memcmp(buf, M.b, (size_t)N)) {
-		int i = 0; while (buf[i] == M.b[i]) i++;
-		vx_sb g = {0}, w = {0}; hexbytes(&g, buf, N); hexbytes(&w, M.b, N);
-		const char *cl = (o->pack && fits && i >= old && i < old + (long)k) ? "layout"
-			: (o->pack && !fits) ? "overflow-transfer" : "stray-write";
-		fail(sit, cl, "buffer is [%s], expected [%s] (first difference at offset %d; cursor before the call %ld, item of %u byte%s)",
-		     g.s, w.s, i, old, k, k == 1 ? "" : "s");
-		free(g.s); free(w.s);
-		return 0;
-	}
-	/* 2. bytes beside the buffer on the side without guard page */
-	for (int i = 0; i < CANARY; i++) if (canary[i] != 0xC5) {
-		long off = ALIGN ? N + i : i - CANARY;
-		memset(canary, 0xC5, CANARY);
-		return fail(sit, "outside-write", "byte at offset %ld relative to the buffer start was modified (buffer is %d bytes)", off, N);
+	/* 1. + 2. buffer image and the bytes beside it (on the side without guard page) */
+	if (memcmp(win, M.img, WIN)) {
+		if (N && memcmp(buf, MB, (size_t)N)) {
+			int i = 0; while (buf[i] == MB[i]) i++;
+			vx_sb g = {0}, w = {0}; hexbytes(&g, buf, N); hexbytes(&w, MB, N);
+			const char *cl = (o->pack && fits && i >= old && i < old + (long)k) ? "layout"
+				: (o->pack && !fits) ? "overflow-transfer" : "stray-write";
+			fail(sit, cl, "buffer is [%s], expected [%s] (first difference at offset %d; cursor before the call %ld, item of %u byte%s)",
+			     g.s, w.s, i, old, k, k == 1 ? "" : "s");
+			free(g.s); free(w.s);
+			return 0;
+		}
+		int i = 0; while (win[i] == M.img[i]) i++;
+		return fail(sit, "outside-write", "byte at offset %d relative to the buffer start was modified (buffer is %d bytes)", i - BOFF, N);
 	}
 	/* 3. returned value */
 	if (!o->pack && o->width) {
-		int64_t want = fits ? as_type(compose(M.b + old, o->width, o->be), o->width, o->sgn) : 0;
+		int64_t want = fits ? as_type(compose(MB + old, o->width, o->be), o->width, o->sgn) : 0;
 		if (ret != want)
 			return fail(sit, fits ? "value" : "overflow-value", "returned %lld (0x%llx), expected %lld (0x%llx)%s",
 				    (long long)ret, (unsigned long long)ret, (long long)want, (unsigned long long)want,
@@ -353,7 +352,7 @@ compare:
 	if (a->kind == K_U_BYTES) {
 		for (int i = 0; i < (int)sizeof(dstarea); i++) {
 			int j = i - 8;
-			uint8_t want = (a->null || j < 0 || j >= (int)k) ? 0xA5 : fits ? M.b[old + j] : 0;
+			uint8_t want = (a->null || j < 0 || j >= (int)k) ? 0xA5 : fits ? MB[old + j] : 0;
 			if (dstarea[i] != want) {
 				const char *cl = (a->null || j < 0 || j >= (int)k) ? "dst-outside" : fits ? "dst" : "overflow-dst";
 				return fail(sit, cl, "destination byte %d is 0x%02x, expected 0x%02x (%s)", j, dstarea[i], want,
@@ -373,12 +372,13 @@ compare:
 		n_eval++; n_opsit[a->kind][sit]++;
 		if (PHASE == 31) n_by_len[plen]++; else n_sweep_calls++;
 		if (a->kind == K_P_BYTES || a->kind == K_U_BYTES) n_null[a->null]++;
-		if (sit == SIT_OVERFLOW && !crossing[a->kind][ALIGN][N][old]) { crossing[a->kind][ALIGN][N][old] = 1; n_crossings++; }
+		if (PHASE == 31 && plen && sit == SIT_OVERFLOW && !crossing[cur_ai][ALIGN][N][old]) { crossing[cur_ai][ALIGN][N][old] = 1; n_crossings++; }
 		/* observation tuple, packed injectively into 64 bits */
 		uint32_t val = a->kind == K_REWIND ? 0 : o->pack ? (a->kind == K_P_BYTES ? 0 : (k == 4 ? a->arg : a->arg & ((1u << (8 * k)) - 1)))
-			: fits ? compose(M.b + old, (int)k, 0) : 0;
+			: fits ? compose(MB + old, (int)k, 0) : 0;
 		uint64_t key = ((uint64_t)PHASE << 59) | ((uint64_t)a->kind << 54) | ((uint64_t)N << 50) | ((uint64_t)ALIGN << 49)
-			| ((uint64_t)(old & 63) << 43) | ((uint64_t)sit << 41) | ((uint64_t)a->sz << 39) | ((uint64_t)a->null << 38) | val;
+			| ((uint64_t)(old & 63) << 43) | ((uint64_t)sit << 41) | ((uint64_t)a->sz << 39) | ((uint64_t)a->null << 38)
+			| ((uint64_t)(a == &act_init) << 37) | val;
 		uint64_t hk = vx_mix(key + 0x9e3779b97f4a7c15ULL);
 		if (dcache[hk & (lengthof(dcache) - 1)] != key + 1) {
 			dcache[hk & (lengthof(dcache) - 1)] = key + 1;
@@ -389,10 +389,14 @@ compare:
 	return 1;
 }
 
+static void repair_canary(void)
+{
+	memset(win, 0xC5, (size_t)BOFF); memset(buf + N, 0xC5, (size_t)(WIN - BOFF - N));
+}
 static int step(const act_t *a, int count)
 {
 	int ok = step_inner(a, count);
-	if (!ok) memset(canary, 0xC5, CANARY);	/* never blame a later call for damage already reported */
+	if (!ok) repair_canary();	/* never blame a later call for damage already reported */
 	return ok;
 }
 
@@ -465,8 +469,8 @@ static int dfs(int L)
 				if (f->next >= NA) { if (depth == 0) break; depth--; continue; }
 				int ai = f->next;
 				f->next += leaf ? NSPLIT : 1;	/* leaves: only the last calls of this sub-partition */
-				memcpy(buf, f->m.b, (size_t)N); M = f->m; pk = f->pk;
-				path[depth] = alphabet[ai]; plen = depth + 1;
+				memcpy(win, f->m.img, WIN); M = f->m; pk = f->pk;
+				path[depth] = alphabet[ai]; plen = depth + 1; cur_ai = ai;
 				suppress = !leaf;
 				vx_opseq++;
 				ok = step(&path[depth], leaf);
@@ -487,7 +491,7 @@ static int dfs(int L)
 			VX_END;
 			suppress = (plen != L);
 			fail(situation(M.cur, act_size(&path[plen - 1])), "fault", "%s%s", vx_fault_msg, fault_text());
-			memset(canary, 0xC5, CANARY);
+			repair_canary();
 			if (vx_too_many_violations()) { suppress = 0; return 0; }
 			/* go on with the next sibling: stk[depth].next is already advanced */
 		}
@@ -699,7 +703,7 @@ int main(int argc, char **argv)
 	vx_count("distinct", distinct.n);
 	vx_count("roundtrips_checked", n_roundtrips);
 	vx_count("sweep_calls", n_sweep_calls);
-	vx_count("overflow_crossings_distinct(op,alignment,size,cursor)", n_crossings);
+	vx_count("overflow_crossings_distinct(action,alignment,size,cursor)", n_crossings);
 	vx_count("scope_guard_skips", 0);	/* total requested bytes never approach 2^31 here */
 	vx_max("alphabet_actions", (uint64_t)NA);
 	for (int l = 0; l <= MAXL; l++) if (n_by_len[l]) { char nm[64]; snprintf(nm, sizeof(nm), "sequences_len%d", l); vx_count(nm, n_by_len[l]); }
